@@ -19,6 +19,13 @@ package hq
 //@   loop range invariant [unchanged] forall(n, *models.Item, n.status == old(n.status))
 //@   loop range#4 invariant [marked] -1 <= rangeindex && forall(n, *models.Item, n.status == old(n.status) || (n.status == models.ItemSeen && !has(hqNew, n.url.Raw)))
 //@   loop range#4 invariant [answer] hqNew != nil && forall(k, 0, len(outputURLs), has(hqNew, outputURLs[k].Value)) && forall(v, string, has(hqNew, v) ==> exists(k, 0, len(outputURLs), outputURLs[k].Value == v))
+//@   local asked int = 0
+//@   local its []*models.Item = nil
+//@   after GetNodesAtLevel(item)#1: its = opResult0
+//@   loop range#4 invariant [same-list] samearray(its, items) && len(its) == len(items)
+//@   ensures [complete-hq] @C08 result == nil && asked == 1 ==> forall(k, 0, len(its), has(hqNew, its[k].url.Raw) || its[k].status == models.ItemSeen) // C08: once a URL has been recorded as seen, any item checked afterwards with the same URL is skipped (crawl HQ: every node of the level whose URL the answer does not list as new is marked seen)
+//@   after Seencheck(client)#1: asked = ite(opResult1 == nil, 1, 0)
+//@   loop range#4 invariant [complete] asked == 1 && forall(k, 0, rangeindex+1, has(hqNew, items[k].url.Raw) || items[k].status == models.ItemSeen)
 //@   loop range#5 invariant [scanned] -1 <= rangeindex && (!found ==> forall(k, 0, rangeindex+1, outputURLs[k].Value != items[i].url.Raw))
 //@   ensures [error-pure] result != nil ==> forall(n, *models.Item, n.status == old(n.status)) // C08: (HQ error) nothing is skipped as seen unless the store said so
 //@   ensures [sound-hq] result == nil ==> forall(n, *models.Item, n.status == old(n.status) || (n.status == models.ItemSeen && !has(hqNew, n.url.Raw))) // C08: an item is skipped as already seen only if the seen-store (crawl HQ) really reported it as seen
